@@ -90,6 +90,9 @@ func certNames() map[string]string {
 	for i, n := range []string{"R0", "R1", "R2", "I0"} {
 		m[string(u.anchors[i].Raw)] = n
 	}
+	for n, c := range u.subCAs {
+		m[string(c.Raw)] = n
+	}
 	return m
 }
 
